@@ -56,7 +56,7 @@ def run(check, unrecognised):
 		'lark 1.3.1 is not modelled (see C04); the CLI control flow (LarkMultiFileParser, exit codes) is modelled by C17, here it is only run']
 	check.assume += ['columns are compared for ASCII documents and for errors that are not raised at the end of the text']
 	check.extra['rule'] = 'catalogue of 24 single-point corruption operators x applicable sites of all shipped .cats files and of seeded random ' \
-		'documents (quick: 2 sites per operator per file; thorough: up to 12); CLI runs on a 4-file import tree with one corrupted file'
+		'documents (quick: all shipped files and 40 random documents, 1 site per operator per document; thorough: up to 12 sites per operator per shipped file, 300 random documents x 3 sites per operator); CLI runs on a 4-file import tree with one corrupted file'
 	for module in ('GrammarTerminals', 'SyntaxOps'):
 		if unrecognised.get(module):
 			check.notes.append(f'anchors not recognised, pinned values used for them: {unrecognised[module]}')
@@ -65,14 +65,14 @@ def run(check, unrecognised):
 
 	quick = check.tier == 'quick'
 	sources = [(str(path.relative_to(REPO)), path.read_text(encoding='utf8')) for path in c04.shipped_files()]
-	for index in range(40 if quick else 1500):
+	for index in range(40 if quick else 300):
 		ds, style = c04.rand_doc(rng), c04.rand_style(rng)
 		sources.append((f'random-{index}', c04.render(style, ds)))
 	cases = []
 	for name, text in sources:
 		if c04.impl_parse(text)[0] != 'ok':
 			continue  # only well-formed documents are corrupted (documents the shipped parser rejects are C04's findings)
-		per_operator = 2 if quick else (12 if not name.startswith('random') else 3)
+		per_operator = 1 if quick else (12 if not name.startswith('random') else 3)
 		for operator, site, bad_text in c04.corruptions(text, rng, per_operator):
 			cases.append({'source': name, 'operator': operator, 'site': site, 'text': bad_text})
 	impls = [c04.impl_parse(case['text']) for case in cases]
